@@ -160,7 +160,7 @@ def objBody (rec : ToRec) (info : FieldInfo) (msg : Option MsgInfo) (subEmpty : 
     | some (.obj _ n (some as) tys) => (n, as, tys)
     | some (.obj _ n none tys) => (n, [], tys)
     | _ => (false, [], oty)
-  let isEmpty := match msg with | some m => m.isEmpty | none => false
+  let isEmpty := (isEmptyMsg msg)
   let copyObj (s : GoVal) : Outcome (TfVal × List Diag × List HookCall) :=
     if subEmpty then .ok (.obj false null (some attrs) atys, diags, hooks)
     else
